@@ -35,6 +35,7 @@ func (c07) Batches(tier string, seed uint64) []core.Batch {
 	b = append(b, spread("corrupt", 8, tierN(tier, 6000, 40000))...)
 	b = append(b, spread("raw", 8, tierN(tier, 6000, 50000))...)
 	b = append(b, spread("huge", tierN(tier, 1, 4), 1)...)
+	b = append(b, spread("corpus", 4, 0)...) // this machine's dpkg database, in slices of 40 stanzas
 	return b
 }
 
@@ -394,6 +395,29 @@ func (p c07) invCase(c *core.C, text string) {
 	}
 }
 
+// corpusCase: real stanzas; the expectation comes from the independent reference reader.
+func (p c07) corpusCase(c *core.C, text string) {
+	want, ok := model.RefRead(text)
+	if !ok || len(want) == 0 {
+		c.Cover("corpus:reference-reader-rejects")
+		return
+	}
+	for _, path := range c07Paths {
+		for _, rk := range []string{"string", "chunks"} {
+			got, err := c07Read(path, rk, text, uint64(len(text)))
+			if err != nil {
+				c.Failf("%s over a %s reader failed on stanzas of the dpkg database: %v", path, rk, err)
+				continue
+			}
+			if diff := diffParas(got, want); diff != "" {
+				c.Failf("%s over a %s reader on stanzas of the dpkg database: %s", path, rk, diff)
+			}
+		}
+	}
+	c.CoverN("corpus:dpkg-database-stanzas", int64(len(want)))
+	c.Nontrivial()
+}
+
 // hugeReader streams n paragraphs of about 1 KiB each without holding them.
 type hugeReader struct {
 	n, i int
@@ -518,6 +542,17 @@ func corrupt(r *core.Rand, text string) string {
 func (p c07) RunBatch(t *core.T, b core.Batch) {
 	r := t.Rand(b.Name, fmt.Sprint(b.Arg))
 	switch b.Name {
+	case "corpus":
+		st := corpusStanzas()
+		if len(st) == 0 {
+			t.Cover("corpus:unavailable")
+			return
+		}
+		for lo := b.Arg * 40; lo < len(st); lo += 4 * 40 {
+			hi := min(lo+40, len(st))
+			text := strings.Join(st[lo:hi], "\n")
+			t.Case("corpus", []byte(text), func(c *core.C) { p.corpusCase(c, text) })
+		}
 	case "pinned":
 		for _, s := range c07Pinned {
 			s := s
@@ -566,6 +601,8 @@ func (p c07) RunCase(t *core.T, kind string, input []byte) {
 		}
 	case "inv":
 		t.Case(kind, input, func(c *core.C) { p.invCase(c, string(input)) })
+	case "corpus":
+		t.Case(kind, input, func(c *core.C) { p.corpusCase(c, string(input)) })
 	case "huge":
 		var mib int
 		var via string
